@@ -188,6 +188,10 @@ class Framer(tasking.Tasker):
         Force exit if not done or if done but still entered with its main frame
         Called by Razer Actor when razing insular auxes from frame
         """
+        house = getattr(self.store, 'house', None)
+        if house:
+            house.assignRegistries()  # ensure Framer.Names is own house's registry
+
         if not self.done or self.active:
             console.profuse("Force exiting '{0}'\n".format(self.name))
             self.exitAll()
